@@ -93,6 +93,10 @@ func (f *StringFormatter) Format(format string, values []value.Primary) (string,
 			}
 		}
 
+		if MaxLengthArgument < width || MaxLengthArgument < precision {
+			return "", NewFormatWidthTooLargeError(MaxLengthArgument)
+		}
+
 		switch ch {
 		case 's', 'q', 'i', 'T':
 			placeholder.WriteRune('s')
